@@ -53,6 +53,34 @@ func failAt(k int) func(int, model.Ev) error {
 	}
 }
 
+// faultPositions lists the fault positions tried for a run of n steps: all of
+// them up to 512 steps; beyond that (a few generated strings make the JSON
+// encoder issue thousands of writes, and every position costs a full run) the
+// first 256, the last 64 and an even stride through the middle.
+func faultPositions(n int) []int {
+	out := make([]int, 0, min(n, 512))
+	if n <= 512 {
+		for k := 0; k < n; k++ {
+			out = append(out, k)
+		}
+		return out
+	}
+	for k := 0; k < 256; k++ {
+		out = append(out, k)
+	}
+	stride := (n - 320) / 192
+	if stride < 1 {
+		stride = 1
+	}
+	for k := 256; k < n-64; k += stride {
+		out = append(out, k)
+	}
+	for k := n - 64; k < n; k++ {
+		out = append(out, k)
+	}
+	return out
+}
+
 func checkC16(ci any, info *CaseInfo) string {
 	c := ci.(*C16Case)
 	info.Class("target:" + c.Target)
@@ -71,7 +99,7 @@ func checkC16(ci any, info *CaseInfo) string {
 		}
 		W := dry.writes
 		info.NonTrivial = W > 1
-		for k := 0; k < W; k++ {
+		for _, k := range faultPositions(W) {
 			info.Class("fault_positions")
 			fw := &failWriter{k: k}
 			o := guard(func() error { _, err := model.Apply(c.Evs, cd.NewVisitor(fw, c.Opts)); return err })
@@ -113,7 +141,7 @@ func checkC16(ci any, info *CaseInfo) string {
 		}
 		N := dry.N
 		info.NonTrivial = N >= 2
-		for k := 0; k < N; k++ {
+		for _, k := range faultPositions(N) {
 			info.Class("fault_positions")
 			rec := &model.Recorder{Hook: failAt(k)}
 			o := run(rec)
@@ -146,7 +174,7 @@ func checkC16(ci any, info *CaseInfo) string {
 		}
 		N := dry.N
 		info.NonTrivial = N >= 2
-		for k := 0; k < N; k++ {
+		for _, k := range faultPositions(N) {
 			info.Class("fault_positions")
 			rec := &model.Recorder{Hook: failAt(k)}
 			o := foldTo(rv, rec)
@@ -171,7 +199,7 @@ func checkC16(ci any, info *CaseInfo) string {
 		}
 		N := dry.N
 		info.NonTrivial = N >= 2
-		for k := 0; k < N; k++ {
+		for _, k := range faultPositions(N) {
 			info.Class("fault_positions")
 			rec := &model.Recorder{Hook: failAt(k)}
 			o := guard(func() error { _, err := model.Apply(c.Evs, plainVisitor{rec}); return err })
@@ -276,7 +304,7 @@ var plainKinds = []string{model.KNil, model.KBool, model.KStr, model.KStrRef, mo
 func init() {
 	register(&Property{
 		ID:    "C16",
-		Rule:  "per generated case EVERY fault position is tried: encoders (json, cborl, ubjson) with an io.Writer failing from the k-th Write on, for every k < number of writes of the dry run; parsers ({Parse, ParseReader over chunks, pull decoder}), Fold over generated Go values and the extended-event adapters with a visitor returning a sentinel at event k, for every k < number of events; oracle = some call returns a non-nil error (encoders) / the outermost call returns an error that is the sentinel (errors.Is) and no event follows the failing one; deterministic part: every extended event (empty and non-empty) and every scalar kind through every encoder and the adapters; non-trivial = more than one fault position in the case; distinct by case hash; the class counter fault_positions counts the injected faults",
+		Rule:  "per generated case EVERY fault position is tried (runs of more than 512 steps: the first 256, the last 64 and an even stride of 192 through the middle): encoders (json, cborl, ubjson) with an io.Writer failing from the k-th Write on, for every k < number of writes of the dry run; parsers ({Parse, ParseReader over chunks, pull decoder}), Fold over generated Go values and the extended-event adapters with a visitor returning a sentinel at event k, for every k < number of events; oracle = some call returns a non-nil error (encoders) / the outermost call returns an error that is the sentinel (errors.Is) and no event follows the failing one; deterministic part: every extended event (empty and non-empty) and every scalar kind through every encoder and the adapters; non-trivial = more than one fault position in the case; distinct by case hash; the class counter fault_positions counts the injected faults",
 		New:   func() any { return &C16Case{} },
 		Draw:  drawC16,
 		Check: checkC16,
